@@ -479,17 +479,15 @@ func (b *assignmentBuilder) canName(t types.Type) bool {
 // that the setup file does not import goes by the name of its package; adding the
 // import is left to goimports.
 func (b *assignmentBuilder) typeName(t types.Type) string {
-	switch typ := t.(type) {
-	case *types.Pointer:
-		return "*" + b.typeName(typ.Elem())
-	case *types.Named:
-		if pkg := typ.Obj().Pkg(); b.isExternalPkg(pkg) {
-			if _, ok := b.imports.LookupName(pkg.Path()); !ok {
-				return pkg.Name() + "." + typ.Obj().Name()
-			}
+	return types.TypeString(t, func(pkg *types.Package) string {
+		if !b.isExternalPkg(pkg) {
+			return ""
 		}
-	}
-	return b.imports.TypeName(t)
+		if name, ok := b.imports.LookupName(pkg.Path()); ok {
+			return name
+		}
+		return pkg.Name()
+	})
 }
 
 // isExternalPkg returns true if the given package is not the current package.
